@@ -78,6 +78,8 @@ def run_replay(binpath, spec, path, tier, timeout=300):
         return "pass", "", ""
     if "REPLAY-ERROR" in out:
         return "error", "", out
+    if r.returncode == 98 or "CASE-CPU-LIMIT" in err:
+        return "crash", "hang/no_result_within_cpu_limit", "the case burns its whole CPU budget (60 s quick / 240 s thorough, process CPU time) without returning"
     # process death
     what = "signal %d" % (-r.returncode) if r.returncode < 0 else "exit %d" % r.returncode
     san = ""
@@ -217,11 +219,27 @@ def main():
             fo = os.path.join(rundir, "p%d-w%d.replay" % (ph_i, w))
             cur = os.path.join(rundir, "p%d-w%d.cur" % (ph_i, w))
             eng = os.path.join(bdir, ph.get("engine", spec["engine"]))
-            cmd = [eng, "--prop", pid, "--tier", tier, "--mode", mode, "--seed", str(sw), "--worker", str(w), "--nworkers", str(nw),
-                   "--out", out, "--fail-out", fo, "--cur", cur, "--cases", str(ph.get("cases", 0))] + spec.get("extra_args", []) + ph.get("args", [])
             rc = "seed=%d max_success=%d max_size=%d max_discard_ratio=100" % (sw, ph.get("cases", 100), ph.get("size", 100))
+            e = env_for(rc)
+            if mode == "fuzz":
+                # coverage-guided phase: fresh corpus seeded with a few pseudo-random byte strings
+                corpus = os.path.join(rundir, "corpus-p%d-w%d" % (ph_i, w))
+                os.makedirs(corpus)
+                import random
+                rnd = random.Random(sw)
+                for ci in range(8):
+                    with open(os.path.join(corpus, "seed%d" % ci), "wb") as cf:
+                        cf.write(bytes(rnd.getrandbits(8) for _ in range(rnd.choice([16, 64, 200, 600]))))
+                e.update(VERIF_FUZZ_PROP=pid, VERIF_FUZZ_TIER=tier, VERIF_FUZZ_OUT=out, VERIF_FUZZ_FAILOUT=fo, VERIF_FUZZ_CUR=cur,
+                         VERIF_FUZZ_KNOWN=",".join(sorted(open_sigs)))
+                e["ASAN_OPTIONS"] = ASAN_OPTS + ":detect_leaks=0"
+                cmd = [eng, "-seed=%d" % (sw % (2 ** 31 - 1) + 1), "-runs=%d" % ph.get("cases", 100000), "-max_len=%d" % ph.get("max_len", 2048),
+                       "-detect_leaks=0", "-print_final_stats=0", "-verbosity=0", "-artifact_prefix=" + os.path.join(rundir, "art-p%d-w%d-" % (ph_i, w)), corpus]
+            else:
+                cmd = [eng, "--prop", pid, "--tier", tier, "--mode", mode, "--seed", str(sw), "--worker", str(w), "--nworkers", str(nw),
+                       "--out", out, "--fail-out", fo, "--cur", cur, "--cases", str(ph.get("cases", 0))] + spec.get("extra_args", []) + ph.get("args", [])
             errf = open(os.path.join(rundir, "p%d-w%d.err" % (ph_i, w)), "w")
-            p = subprocess.Popen(cmd, stdout=subprocess.PIPE, stderr=errf, env=env_for(rc))
+            p = subprocess.Popen(cmd, stdout=subprocess.PIPE, stderr=errf, env=e)
             procs.append((w, p, out, fo, cur, errf))
         deadline = time.time() + ph.get("timeout", 3600)
         for (w, p, out, fo, cur, errf) in procs:
@@ -236,6 +254,11 @@ def main():
             finally:
                 errf.close()
             st = None
+            if mode == "fuzz" and p.returncode not in (0, 77):
+                try:
+                    os.remove(out)   # periodic snapshot only: the process died
+                except OSError:
+                    pass
             if os.path.exists(out):
                 try:
                     st = json.load(open(out))
@@ -380,7 +403,8 @@ def handle_crash(spec, binpath, bdir, tier, cur, errtxt, open_sigs, violations, 
             if line not in known_lines:
                 known_lines.append(line)
             return "known"
-    small = ddmin_text(binpath, spec, text, tier, "crash", asan_sig.split("@")[0][:24])
+    # a hang costs its whole CPU budget per candidate: not minimised step by step
+    small = text if "hang/" in asan_sig else ddmin_text(binpath, spec, text, tier, "crash", asan_sig.split("@")[0][:24])
     header = "# property %s\n# signature %s\n# %s\n" % (pid, sig, msg.split("\n")[0][:200])
     violations.append((sig, msg, save_replay(pid, header + small)))
     return "crash"
